@@ -2,7 +2,7 @@
 import signal
 
 from vf.s1common import s1_jobs, exc_signature, graph_features, front_end_jobs
-from vf.oracles.hier import build_scfg, STAGES
+from vf.oracles.hier import build_scfg, STAGES, staged, route_stages
 
 PROPERTY = "C02"
 LEVEL = "model_checking"
@@ -29,16 +29,15 @@ ASSUMPTIONS = [
 def check(desc):
     fails = []
     # each stage prefix on a fresh graph, then the public one-shot entry point
-    for k in (1, 2, 3):
-        g = build_scfg(desc)
+    route = desc.get("route") or "direct"
+    for k in route_stages(desc, (1, 2, 3)):
         try:
-            for s in STAGES[:k]:
-                stage = s
-                getattr(g, s)()
+            staged(desc, "basic", k)
         except Exception as e:
+            stage = STAGES[k - 1] + ("" if route == "direct" else ":after-" + route)
             fails.append({"kind": "exception", "signature": f"{stage}:{exc_signature(e)}", "detail": repr(e)[:200]})
             break
-    if not fails:
+    if not fails and route == "direct":
         g = build_scfg(desc)
         try:
             g.restructure()
@@ -59,18 +58,123 @@ def harness(E, ctx, aux, desc):
         ctx.fail(f["kind"], f["signature"], desc, f["detail"])
 
 
+# ---------------------------------------------------------------------------
+# scale families: the property says "terminates" for graphs of any size; parametric shapes with a solver-chosen size
+
+
+def _chain(k, first="c"):
+    return {f"{first}{i}": ([f"{first}{i+1}"] if i < k - 1 else []) for i in range(k)}
+
+
+def fam_chain(k):
+    return _chain(k)
+
+
+def fam_diamonds(k):
+    d = {}
+    for i in range(k):
+        nxt = f"h{i+1}" if i < k - 1 else "end"
+        d[f"h{i}"] = [f"l{i}", f"r{i}"]
+        d[f"l{i}"] = [nxt]
+        d[f"r{i}"] = [nxt]
+    d["end"] = []
+    return d
+
+
+def fam_branch_then_chain(k):
+    d = {"s": ["a", "b"], "a": ["c0"], "b": ["c0"]}
+    d.update(_chain(k))
+    return d
+
+
+def fam_nested_loops(k):
+    d = {"s": ["h0"]}
+    for i in range(k):
+        d[f"h{i}"] = [f"h{i+1}" if i < k - 1 else "body", f"x{i}"]
+        d[f"x{i}"] = [f"h{i-1}"] if i > 0 else []
+    d["body"] = [f"h{k-1}"]
+    return d
+
+
+def fam_loop_sequence(k):
+    d = {"s": ["w0"]}
+    for i in range(k):
+        d[f"w{i}"] = [f"b{i}", f"w{i+1}" if i < k - 1 else "end"]
+        d[f"b{i}"] = [f"w{i}"]
+    d["end"] = []
+    return d
+
+
+def fam_ladder(k):
+    # two rails with rungs in both directions: irreducible regions of growing size
+    d = {"s": ["p0", "q0"]}
+    for i in range(k):
+        d[f"p{i}"] = [f"p{i+1}" if i < k - 1 else "end", f"q{i}"]
+        d[f"q{i}"] = [f"q{i+1}" if i < k - 1 else "end", f"p{i}"]
+    d["end"] = []
+    return d
+
+
+SCALE = [
+    ("chain", fam_chain, [50, 300, 1100]),
+    ("diamond-chain", fam_diamonds, [4, 12, 20, 28, 36]),
+    ("branch-then-chain", fam_branch_then_chain, [50, 300, 1100]),
+    ("nested-loops", fam_nested_loops, [2, 4, 6, 8, 10]),
+    ("loop-sequence", fam_loop_sequence, [3, 9, 12, 30]),
+    ("ladder", fam_ladder, [2, 3, 5, 8]),
+]
+
+
+def scale_space():
+    import z3
+
+    f, k = z3.Int("family"), z3.Int("size_index")
+    cs = [f >= 0, f < len(SCALE), k >= 0]
+    for i, (_, _, ks) in enumerate(SCALE):
+        cs.append(z3.Implies(f == i, k < len(ks)))
+    return z3.And(cs), [f, k], {"f": f, "k": k}
+
+
+def scale_harness(E, ctx, aux):
+    from vf.oracles.hier import is_closed
+
+    fi = E.realize(aux["f"])
+    ki = E.realize(aux["k"])
+    name, fam, ks = SCALE[fi]
+    g = fam(ks[ki])
+    desc = {"names": list(g), "succ": [list(v) for v in g.values()], "family": f"{name}({ks[ki]})"}
+    ctx.current = desc
+    if not is_closed({n: tuple(s) for n, s in g.items()}):
+        ctx.feature("scale-family-not-closed:" + name)  # a mistake in the family, not in the library
+        return
+    ctx.feature("scale:" + name)
+    ctx.nontrivial += 1
+    ctx.evaluations += 1
+    for f in check(desc):
+        ctx.fail(f["kind"], f["signature"], desc, f["detail"])
+
+
 def jobs(tier):
-    return s1_jobs(tier, harness, with_routes=False) + front_end_jobs(tier, harness)
+    from vf.runner import Job
+
+    scale = Job("scale-families", scale_space, scale_harness, budget_s=900, path_timeout_s=60.0,
+                bounds={"space": "parametric closed CFGs with a solver-chosen size", "families": {n: ks for n, _, ks in SCALE},
+                        "non-termination": "a path exceeding 60 s and again 600 s"})
+    return s1_jobs(tier, harness) + [scale] + front_end_jobs(tier, harness)
+
+
+class _ReplayTimeout(BaseException):
+    """not an Exception: must not be mistaken for an exception raised by the code under test"""
 
 
 def replay(desc):
     def _alarm(*a):
-        raise TimeoutError()
+        raise _ReplayTimeout()
     signal.signal(signal.SIGALRM, _alarm)
     signal.alarm(120)
     try:
         return check(desc)
-    except TimeoutError:
+    except _ReplayTimeout:
         return [{"kind": "timeout", "signature": "non-termination", "detail": "replay exceeded 120 s"}]
     finally:
         signal.alarm(0)
